@@ -4,33 +4,58 @@ import YaegiVerif.Model.Src
 namespace YaegiVerif.Expected.C16
 open YaegiVerif.Src
 
+/-- the words, and the decisions of pkgDir, previousRoot, importSrc, mainRoot and gta after the repairs of
+    F16, F16-1, F16-2, F16-3, F16-4, F16-6, F16-9, F16-10: a candidate must be a directory, the second
+    attempt is GOPATH/src/<path> at the empty root only, a regular file named vendor does not stop the walk,
+    resolution goes through goPkgDir from mainRoot(rPath), vendor elements are rejected, relatively imported
+    packages are identified and located by their path from the main package -/
 def words : Words :=
   { vendor := "vendor", vendorLit := "vendor", vendorDir := "vendor", src := "src", mainID := "main",
-    defaultName := "_.go", vendorFirst := true }
+    defaultName := "_.go", noRoot := "..", vendorFirst := true, effCandidate := false, candMustBeDir := true,
+    vendorFileStops := false, goFilesSkip := true, rejectVendor := true, mainRoot := true, relRoot := true,
+    relKey := true, relSub := true }
 
-/-- order of the bookkeeping statements of importSrc, by first occurrence:
-    the already-imported test, the resolution, the cycle test, the mark, the recursion (gta), the registration -/
+/-- what the same extraction gives on the tree before those repairs (79ed061): used by the old-fact
+    examples of Props/C16.lean, which reproduce the repaired findings in the model -/
+def oldWords : Words :=
+  { vendor := "vendor", vendorLit := "vendor", vendorDir := "vendor", src := "src", mainID := "main",
+    defaultName := "_.go", noRoot := "absent", vendorFirst := true, effCandidate := true, candMustBeDir := false,
+    vendorFileStops := true, goFilesSkip := false, rejectVendor := false, mainRoot := false, relRoot := false,
+    relKey := false, relSub := false }
+
+/-- order of the bookkeeping statements of importSrc, by first occurrence: the already-imported test, the
+    rejection of vendor elements, the resolution, the cycle test, the mark, the recursion (gta), the registration -/
 def importOrder : List String :=
-  ["srcPkg-test", "resolve", "rdir-test", "rdir-set", "gta", "srcPkg-set"]
+  ["srcPkg-test", "vendor-test", "resolve", "rdir-test", "rdir-set", "gta", "srcPkg-set"]
 
 /-- the io/fs entry points the resolution uses (all through the configured file system) -/
 def fsCalls : List String :=
-  ["fs.ReadDir(interp.opt.filesystem)", "fs.ReadFile(interp.opt.filesystem)", "fs.Stat(filesystem)",
-   "fs.Stat(interp.opt.filesystem)"]
+  ["fs.ReadDir(filesystem)", "fs.ReadDir(interp.opt.filesystem)", "fs.ReadFile(interp.opt.filesystem)", "fs.Stat(filesystem)"]
 
-/-- no direct os/ioutil call in importSrc, pkgDir, previousRoot, effectivePkg -/
+/-- no direct os/ioutil call in importSrc, goPkgDir, hasGoFiles, pkgDir, isDir, previousRoot, effectivePkg,
+    rootFromSourceLocation, rootFromDir, mainRoot, relativePath (os.Getwd left with the repair of F16-4) -/
 def osCalls : List String := []
 
-/-- gta.go importSpec rewrites the import path "x/x" to "x" -/
-def gtaCollapse : Bool := true
+/-- the one place where the process is consulted: rootFromDir makes the package directory and GOPATH/src
+    absolute (both against the same working directory) before comparing them -/
+def wdCalls : List String := ["rootFromDir:filepath.Abs"]
+
+/-- gta.go importSpec does not rewrite the import path "x/x" of a source package any more (F16-7) -/
+def gtaCollapse : Bool := false
 
 /-- fingerprints (extract/common FuncHash) of the functions Model/Src.lean was transcribed from -/
 def sourceHashes : List (String × String) :=
-  [("Interpreter.importSrc", "523be9b327589e94"),
-   ("Interpreter.rootFromSourceLocation", "ee80b6987c557247"),
-   ("Interpreter.pkgDir", "daabd0545f80d74a"),
-   ("previousRoot", "72d5bbec27d4b335"),
+  [("Interpreter.importSrc", "c576e5c0b154d9ae"),
+   ("Interpreter.rootFromSourceLocation", "c6cbb2779907acb0"),
+   ("Interpreter.rootFromDir", "e99c87ffbfab385e"),
+   ("Interpreter.mainRoot", "7fa06822003a1d76"),
+   ("Interpreter.goPkgDir", "bb87fe31facfd623"),
+   ("hasGoFiles", "cd64e9606467c110"),
+   ("Interpreter.pkgDir", "69a53c6407a6fcff"),
+   ("isDir", "45130a5806effe5e"),
+   ("previousRoot", "5e48a38bb5878f66"),
    ("effectivePkg", "d6f8d7c683ef8bea"),
+   ("relativePath", "e2a99d3e4fa9641e"),
    ("isPathRelative", "66480ee04f4d0eb0")]
 
 end YaegiVerif.Expected.C16
